@@ -108,7 +108,9 @@ pub fn nonliteral_const_array(spec: &SysSpec) -> bool {
     use crate::shapes::Sh;
     fn has(e: &Sh) -> bool {
         match e {
-            Sh::Op(Op::ArrayConst, _, k) => !matches!(k[0], Sh::Lit(..)) || has(&k[0]),
+            // cvc5 1.0: non-literal values under `as const` are rejected, and equalities between
+            // write chains over different constant arrays are unsupported by its array solver
+            Sh::Op(Op::ArrayConst, _, _) => true,
             Sh::Op(_, _, k) => k.iter().any(has),
             _ => false,
         }
